@@ -95,7 +95,8 @@ def same(a, b):
 
 
 def dec(x):
-    return {"nan": float("nan"), "inf": float("inf"), "-inf": float("-inf")}.get(x, x) if isinstance(x, str) else x
+    return {"nan": float("nan"), "inf": float("inf"), "-inf": float("-inf"), "hugeint": 10 ** 5000,
+            "-hugeint": -(10 ** 5000)}.get(x, x) if isinstance(x, str) else x
 
 
 # ---------------------------------------------------------------------------------------------
@@ -124,7 +125,7 @@ def gen_cases(seed, n):
                       "base_s": base, "max_s": max(base, rnd.choice([0.0, 1.0, 30.0, 1e308])),
                       "attempt": rnd.choice([1, 2, 3, 10, 100, 1023, 1024, 1751, 5000]),
                       "prev": rnd.choice([None, 0.0, 0.5, 7.0, "inf"]), "r": rnd.choice([0.0, 0.25, 0.5, 0.999])})
-    vals = [None, True, False, 0, 1, 401, 403, 404, 408, 409, 422, 429, 500, 599, 600, 99, 10 ** 30, 401.0, "nan", "429", "", "40001", "08S01", "28000", "HYT00", "42P01"]
+    vals = [None, True, False, "hugeint", "-hugeint", 0, 1, 401, 403, 404, 408, 409, 422, 429, 500, 599, 600, 99, 10 ** 30, 401.0, "nan", "429", "", "40001", "08S01", "28000", "HYT00", "42P01"]
     for _ in range(2 * n):
         attrs = {a: rnd.choice(vals) for a in rnd.sample(["status", "status_code", "code", "sqlstate"], rnd.randint(0, 3))}
         base_ = rnd.choice(["Exception", "TimeoutError", "ValueError", "PermanentError", "RateLimitError", "ConcurrencyError",
@@ -256,7 +257,15 @@ def exec_classifier(it, c):
         return Obj(None, {"search": EnvFn("xsearch")})
 
     it.ext_models["re.compile"] = compile_
-    it.ext_models["str()"] = lambda it_, v, node: str(v)
+    from .classifiers import http_status
+    it.ext_models["http.HTTPStatus"] = http_status
+    def host_str(it_, v, node):
+        try:
+            return str(v)
+        except ValueError:
+            it_.raise_builtin("ValueError", node)
+
+    it.ext_models["str()"] = host_str
     r = call_catch(it, FuncV(it.tree.func(key)), [e])
     if r[0] == "exc":
         return ["raises:" + exc_name(it, r[1])]
